@@ -71,6 +71,17 @@ def binder_sequences():
         "if true { v := 5 } else { v := 6 }",
         "if *w == 0 { v := 5 }",
         "r := match src[0] { y: int => { v := y } => { 0 } }",
+        # scrutinees only known at run time (nothing of the construct is folded away when it is parsed)
+        "r := match nx() { v: int => { v + 1 } => { 0 } }",
+        "r := match nx() { v: int => v * 2, => 0, }",
+        "r := match nx() { v: int|() => 5, }",
+        "r := match (nx(), 3) { v: (int, int) => 1, => 0, }",
+        "r := if v: int = nx() { v * 2 } else { 0 }",
+        "r := if v: int = nx() v * 2 else 0",
+        "r := match nx() { y: int => { v := y } => { 0 } }",
+        "for v in [nx(), 20]~ { w += 1 }",
+        "r := [nx(), 20]~ @ (v: int|()) -> int { return 1 } $]",
+        "(v, z) := { (v, z) := (nx(), 6); (1, z) }; v",
     ]
     out = []
     for first in ("v := 1", "v := \"top\"", "v := mut 1"):
